@@ -123,7 +123,7 @@ class Kernel:
         src_t = loop.source
 
         def f(x):
-            if x[0] == "idx" and x[2] == C(0) and (x[1] == src_t):
+            if x[0] == "idx" and x[2] == C(0) and (x[1] == src_t or x[1] == getattr(loop, "orig_source", None)):
                 return ("elem", loop.id)
             # first element of `[e for e in S if F]`
             if x[0] == "idx" and x[2] == C(0) and x[1][0] == "compr":
@@ -498,6 +498,7 @@ class Kernel:
                 import copy as _copy
                 l2 = _copy.copy(loop)
                 l2.source, l2.whole = base, loop.whole and w0
+                l2.orig_source = loop.source          # `values[0]` of the computed list seeds the fold: its first element, rebased like the rest
                 k = self._from_fold(l2, v, fo)
             finally:
                 self.canon = saved
@@ -519,13 +520,22 @@ class Kernel:
             k.sense, k.strict = fo.sense, fo.strict
             k.band = self.canon(getattr(fo, "cond_text", fo.cond), loop.id) if getattr(fo, "band", False) else None
             fe = self.first_elem_init(init, loop) if init is not None else None
+            fe_filter = None
+            if fe is not None and fe != k.term:
+                # the loop runs over a list computed from the successor list (`candidates = [state_list[t] for (a, t) in S if a in allowed]`)
+                # and is seeded at candidates[0]: read the seed in terms of the successor itself, like the term
+                le0 = self.listexpr(loop.source)
+                if le0 is not None and le0[2] != ("e",) and le0[3]:
+                    fe2 = deep_simp(self._rebase(fe, le0[2]))
+                    if fe2 == k.term:
+                        fe, fe_filter = fe2, le0[1]
             if getattr(fo, "none_seeded", False):
                 k.init = ("first",)
                 k.first_filter = k.filter
                 k.truthy_seed = getattr(fo, "truthy_seed", False)
             elif fe is not None and fe == k.term:
                 k.init = ("first",)
-                k.first_filter = self.first_filter(init, loop)
+                k.first_filter = self.first_filter(init, loop) if fe_filter is None else fe_filter
             else:
                 k.init = self.canon_top(init) if init is not None else None
                 if init is not None and isinstance(k.source, tuple) and k.term is not None and self._seed_init(init, k.term, k.source) == ("first",):
